@@ -25,7 +25,7 @@ var MySQLLayer func(r *ev.Run)
 
 // Run is the C12 monitor.
 func Run(r *ev.Run) {
-	r.Rule = "phase A (empty and unrelated configuration): sessions mixing every frontend message type (Query, Parse, Bind, Describe S/P, Execute with row limits, Sync, Flush, Close, CopyData/CopyDone/CopyFail, FunctionCall, password message, Terminate) with scripted database replies covering every backend message type (authentication requests, ParameterStatus, BackendKeyData, Notice, Notification, RowDescription, DataRow with NULL/empty/1 MiB fields in text and binary, CommandComplete, EmptyQueryResponse, ErrorResponse with all fields, PortalSuspended, NoData, ParameterDescription, CopyIn/CopyOut/CopyData/CopyDone, FunctionCallResponse): the byte stream arriving at the database must equal the one the client sent and vice versa. phase B (generated column configurations): every message of generated sessions is aligned client-side vs database-side; only Query/Parse text, Bind parameters of configured columns, DataRow fields of configured columns, RowDescription/ParameterDescription type OIDs may differ, everything else byte-identical, field counts and NULL markers preserved, every message re-parses with an independent codec. distinct = (phase, message type, direction, outcome) tuples"
+	r.Rule = "phase A (empty and unrelated configuration): sessions mixing every frontend message type (Query, Parse, Bind, Describe S/P, Execute with row limits, Sync, Flush, Close, CopyData/CopyDone/CopyFail, FunctionCall, password message, Terminate) with scripted database replies covering every backend message type (authentication requests, ParameterStatus, BackendKeyData, Notice, Notification, RowDescription, DataRow with NULL/empty/1 MiB fields in text and binary, CommandComplete, EmptyQueryResponse, ErrorResponse with all fields, PortalSuspended, NoData, ParameterDescription, CopyIn/CopyOut/CopyData/CopyDone, FunctionCallResponse): the byte stream arriving at the database must equal the one the client sent and vice versa. phase B (generated column configurations): every message of generated sessions is aligned client-side vs database-side; only Query/Parse text, Bind parameters of configured columns (the effective format code of every parameter - none = text, one = for all, else per parameter - must stay, also when the Bind is rewritten; mixtures incl. first and last alike with another format in between are forced), DataRow fields of configured columns, RowDescription/ParameterDescription type OIDs may differ, everything else byte-identical, field counts and NULL markers preserved, every message re-parses with an independent codec. distinct = (phase, message type, direction, outcome) tuples"
 	r.Assumptions = []string{
 		"crypto library replaced by the pure-Go gothemis stand-in",
 		"database and client codecs are pgproto3 (pgx), independent of Acra's packet handler; PostgreSQL protocol in this part (MySQL part reported separately when built)",
@@ -53,6 +53,8 @@ func Run(r *ev.Run) {
 	}
 	r.RequireAtLeast("relay_sessions_byte_identical", 20)
 	r.RequireAtLeast("shape_messages_aligned", 500)
+	r.RequireAtLeast("rewritten_binds_with_mixed_formats_and_3plus_parameters", 10)
+	r.RequireAtLeast("rewritten_binds_first_and_last_format_alike_middle_different", 3)
 	r.RequireSetAtLeast("frontend_types_relayed", 10)
 	r.RequireSetAtLeast("backend_types_relayed", 14)
 }
